@@ -259,6 +259,46 @@ Fixpoint spec_run (sp : spec) (ops : list bop) : list bout :=
   end.
 
 (* ---------------------------------------------------------------------------------------------
+   Return path of a host function that hands data back to WASM.
+   radix-engine-interface types/wasm.rs: Buffer::new(id, len) = (id as u64) << 32 | (len as u64),
+   Buffer::id() = (v >> 32) as u32, Buffer::len() = (v & 0xffffffff) as u32 (for u32 id and len the OR
+   of the disjoint halves is the sum).  wasmi.rs: `runtime.<method>(vectors read).map(|buffer| buffer.0)`,
+   scrypto_runtime.rs: every such method ends with `self.allocate_buffer(result)`. *)
+Definition buffer_pack (id len : N) : N := id * 4294967296 + len.
+Definition buffer_id (v : N) : N := (v / 4294967296) mod 4294967296.
+Definition buffer_len (v : N) : N := v mod 4294967296.
+
+(* `f` is what the runtime computes from the vectors read (hash, call result, ...) *)
+Definition host_call_w (w : N) (st : bufs) (m : mem) (pairs : list (N * N))
+           (f : list (list N) -> list N) : res N * bufs :=
+  match host_reads_w w m pairs with
+  | Ok bss =>
+    match allocate_buffer st (f bss) with
+    | (Ok (id, len), st') => (Ok (buffer_pack id len), st')
+    | (Err e, st') => (Err e, st')
+    | (Panic, st') => (Panic, st')
+    end
+  | Err e => (Err e, st)
+  | Panic => (Panic, st)
+  end.
+Definition host_call := host_call_w USIZE_BITS.
+
+(* what a WASM program does with the result: buffer_consume(Buffer::id(v), dest) *)
+Definition call_then_consume_w (w : N) (st : bufs) (m : mem) (pairs : list (N * N))
+           (f : list (list N) -> list N) (dest : N) : res N * bufs * mem :=
+  match host_call_w w st m pairs f with
+  | (Ok v, st') =>
+    match consume_buffer_w w st' m (buffer_id v) dest with
+    | (Ok _, st'', m') => (Ok v, st'', m')
+    | (Err e, st'', m') => (Err e, st'', m')
+    | (Panic, st'', m') => (Panic, st'', m')
+    end
+  | (Err e, st') => (Err e, st', m)
+  | (Panic, st') => (Panic, st', m)
+  end.
+Definition call_then_consume := call_then_consume_w USIZE_BITS.
+
+(* ---------------------------------------------------------------------------------------------
    Test memories and data used by the correspondence cases (deterministic patterns, so that case
    files do not have to carry 64 KiB pages). *)
 Definition PAGE : N := 65536.
